@@ -124,12 +124,14 @@ def chk_case(inp, c):
     B, L, mask, equal = inp["B"], inp["L"], inp["mask"], inp["equal"]
     if np.any((mask == 0) & (np.broadcast_to(lbv, mask.shape) > 0)):
         c.unmet("mask forbids a source whose lower bound is positive (no feasible X)")
+    if np.any(B - c0 < 0):
+        c.unmet("targets below the baseline (the non-negative factorisation needs a non-negative light-induced part)")
     N = len(B)
     sub = inp["subsample"]
     c.cell(*gen.sys_cells(inp), f"layers={L}", "mask=" + inp["maskkind"], f"equal_l1={equal}",
            "subsample=" + ("None" if sub is None else ("fast" if sub == "fast" else "fraction")),
            "opacity=" + ("custom" if inp["custom"] else "default"))
-    est = c.call(gen.make_estimator, dreye, inp, _where="ReceptorEstimator+register_system")
+    est = gen.live_or_new(c, dreye, inp)
     kw = dict(n_layers=L, mask=(mask.copy() if inp["pass_mask"] else None), lbp=inp["lbp"], ubp=inp["ubp"],
               max_iter=inp["max_iter"], seed=inp["seed"], subsample=sub, equal_l1norm_constraint=equal)
     runtime.EVENTS.clear()
@@ -220,4 +222,20 @@ def chk_case(inp, c):
     c.note("result", {"loss": loss_fn(Mt, c0, X, P, B), "iterations": n_iter, "row_sums": X.sum(axis=1)})
 
 
-M.add("decomposition", gen_case, chk_case, weight=1, min_held=40)
+M.add("decomposition", gen_case, chk_case, weight=7, min_held=40)
+
+
+def gen_rereg(rng, i):
+    s = gen_case(rng, i)
+    s["rereg_seed"] = int(rng.integers(0, 2 ** 31 - 1))
+    return s
+
+
+def chk_rereg(inp, c):
+    """The decomposition uses the CURRENTLY registered system: decompose, change one registration (never a matrix K: the
+    decomposition needs a non-negative model), decompose again and judge against the new values."""
+    gen.rereg_check(c, dreye, inp, lambda est: est.fit_decomposition(inp["B"], n_layers=inp["L"], seed=inp["seed"], max_iter=3),
+                    chk_case, matrix_ok=False)
+
+
+M.add("decomposition_after_reregistration", gen_rereg, chk_rereg, weight=1, min_held=10)
